@@ -10,6 +10,7 @@ import (
 	"crypto/x509"
 	"flag"
 	"fmt"
+	"google.golang.org/grpc/codes"
 	"math/big"
 	"os"
 	"strings"
@@ -115,13 +116,17 @@ func drawStates(r *core.Run, n int, liveBias bool) []kmspb.CryptoKeyVersion_Cryp
 			}
 		case 1:
 			out[i] = []kmspb.CryptoKeyVersion_CryptoKeyVersionState{kmspb.CryptoKeyVersion_DESTROY_SCHEDULED, kmspb.CryptoKeyVersion_DISABLED, kmspb.CryptoKeyVersion_ENABLED,
-				kmspb.CryptoKeyVersion_DESTROYED, kmspb.CryptoKeyVersion_GENERATION_FAILED}[r.Intn(5, "state")]
+				kmspb.CryptoKeyVersion_DESTROYED, kmspb.CryptoKeyVersion_GENERATION_FAILED, kmspb.CryptoKeyVersion_PENDING_IMPORT, kmspb.CryptoKeyVersion_IMPORT_FAILED}[r.Intn(7, "state")]
 		default:
 			out[i] = kmspb.CryptoKeyVersion_ENABLED
 		}
 	}
 	if mode == 2 && n > 0 {
 		out[livePos] = []kmspb.CryptoKeyVersion_CryptoKeyVersionState{kmspb.CryptoKeyVersion_ENABLED, kmspb.CryptoKeyVersion_DISABLED, kmspb.CryptoKeyVersion_PENDING_GENERATION}[r.Intn(3, "live-state")]
+		if livePos < n-1 && r.Chance(30, "import-pending-later?") {
+			// a version whose key material is still to be imported, listed after the live one
+			out[n-1] = kmspb.CryptoKeyVersion_PENDING_IMPORT
+		}
 	}
 	return out
 }
@@ -227,6 +232,9 @@ func c20(r *core.Run) {
 	rpcFault := func() {
 		if r.Chance(25, "rpc-fault?") {
 			k.FailAt = k.Calls + r.Intn(12, "fail-at")
+			// the status the service refuses the call with: none of them says anything about the
+			// resource's state that an operation could act on
+			k.FailCode = []codes.Code{codes.Unavailable, codes.Unavailable, codes.Internal, codes.FailedPrecondition, codes.Aborted, codes.ResourceExhausted, codes.PermissionDenied}[r.Intn(7, "fail-code")]
 		} else if !noDeadline && r.Chance(12, "get-hangs?") {
 			// a poll that the service never answers: it ends with the caller's deadline, and so
 			// does the operation
@@ -293,14 +301,24 @@ func c20(r *core.Run) {
 		}
 		// does the key already have a version bootstrap must select (ENABLED) or wait for (PENDING)?
 		usable, _, nvBefore := false, 0, 0
+		hasEnabled, hasPending := false, false
+		pendingFor := time.Duration(0)
 		if kk := k.key(m.FullKeyName(id)); kk != nil {
 			nvBefore = len(kk.versions)
 			for _, v := range kk.versions {
 				if st := v.StateNow(); st == kmspb.CryptoKeyVersion_ENABLED || st == kmspb.CryptoKeyVersion_PENDING_GENERATION {
 					usable = true
+					hasEnabled = hasEnabled || st == kmspb.CryptoKeyVersion_ENABLED
+					hasPending = hasPending || st == kmspb.CryptoKeyVersion_PENDING_GENERATION
+					if d := time.Until(v.readyAt); d > pendingFor {
+						pendingFor = d
+					}
 				}
 			}
 		}
+		// ... and will selecting or waiting succeed if the service answers every call? An enabled
+		// version is there, or every pending one is going to be enabled well inside the deadline.
+		mustSucceed := hasEnabled || (hasPending && outcome == kmspb.CryptoKeyVersion_ENABLED && (noDeadline || pendingFor+15*time.Second < deadline))
 		rpcFault()
 		setBound()
 		var name string
@@ -315,6 +333,9 @@ func c20(r *core.Run) {
 		r.Eventf("bootstrap-key %s -> ok=%v", id, err == nil)
 		if kk := k.key(m.FullKeyName(id)); kk != nil && usable && len(kk.versions) > nvBefore {
 			r.Fail("bootstrap-picked-non-enabled", "created-instead-of-selecting", "bootstrap created key version #%d although the key already had an enabled or pending version among its %d (paging policy %d): the listing was not accounted for", len(kk.versions), nvBefore, k.Paging)
+		}
+		if err != nil && mustSucceed && !fired() {
+			r.Fail("bootstrap-picked-non-enabled", "gave-up-with-usable-version", "bootstrap failed (%v) although the service answered every call and the key has a version that is enabled or is being generated and will be enabled in time (%d versions, paging policy %d)", err, nvBefore, k.Paging)
 		}
 		if err == nil {
 			r.Probe("bootstrap-returned-version")
